@@ -55,7 +55,7 @@ for name in sorted(os.listdir(sd)):
     if b is not None:
         first_known += 1
         first_none += not b
-intro = (f"{n} changes (rounds 1-8, see 5.1 item 4), all confirmed: the patch applies, the 59 baseline tests pass with it, its\n"
+intro = (f"{n} changes (rounds 1-9, see 5.1 item 4), all confirmed: the patch applies, the 59 baseline tests pass with it, its\n"
          f"demonstration passes on /repo and fails with the change. The check of the property the change was written against is\n"
          f"in bold. {anyc} are caught by at least one check ({thor} of them only by a thorough tier), {own} by the quick tier of the check of\n"
          f"their own property" + (f"; not caught: {', '.join(not_caught)}" if not_caught else "") + ". The last column shows what the checks *as they stood when the\n"
